@@ -212,9 +212,11 @@ func (db *DB) mergeCheck() error {
 // 获取 merge 临时目录路径, 与数据目录同级
 func (db *DB) mergePath() string {
 	// 获取数据目录的父目录路径
-	dir := filepath.Dir(filepath.Clean(db.options.DirPath))
+	// 先规范化路径: 末尾带有分隔符或 "/." 时 Base 会得到错误的目录名称
+	dirPath := filepath.Clean(db.options.DirPath)
+	dir := filepath.Dir(dirPath)
 	// 获取数据目录名称
-	base := filepath.Base(db.options.DirPath)
+	base := filepath.Base(dirPath)
 	return filepath.Join(dir, base+mergeDirName)
 }
 
